@@ -277,6 +277,12 @@ def gen_tables() -> str:
     w(f"def gcHeadBases : List Nat := {lst(g['head'])}")
     w(f"def gcOtherComparisons : List String := [{', '.join(lean_str(x) for x in g['other'])}]")
     w(f"def gcGuard : String := {lean_str(g['guard'])}")
+    w("/-- `_WrapperCache.__init__/__enter__/__exit__`: what they do to `self.locks` (`none`: not of the form")
+    w("    `self.locks = <int>` / `self.locks += <int>` / `self.locks -= <int>` / `self.locks = self.locks ± <int>`) -/")
+    for key in ("lock_init", "lock_enter", "lock_exit"):
+        v = g.get(key)
+        name = {"lock_init": "gcLockInit", "lock_enter": "gcLockEnterDelta", "lock_exit": "gcLockExitDelta"}[key]
+        w(f"def {name} : Option Int := " + ("none" if v is None else f"some ({v})"))
     w("def gcWrapperBase : Nat := gcWrapperBases.foldl min (gcWrapperBases.headD 0)")
     w("def gcDocumentIdle : Nat := gcDocumentIdles.foldl min (gcDocumentIdles.headD 0)")
     w("def gcAppendedBase : Nat := gcAppendedBases.foldl min (gcAppendedBases.headD 0)")
@@ -357,6 +363,39 @@ def gc_thresholds():
                 out["appended"].append(base)
             else:
                 out["other"].append(f"{who} {op}")
+    # the lock: a counter, so that nested `with _wrapper_cache:` blocks keep the callback off until the outermost ends
+    def lock_effect(f, init=False):
+        """the net effect of a method on `self.locks`: an initial value (init) or a delta; None if not recognised"""
+        effect = None
+        for st in pyast.walk(f):
+            tgt = None
+            if isinstance(st, pyast.Assign) and len(st.targets) == 1:
+                tgt, val = st.targets[0], st.value
+            elif isinstance(st, pyast.AugAssign):
+                tgt, val = st.target, st
+            if tgt is None or pyast.unparse(tgt) != "self.locks":
+                continue
+            if effect is not None:
+                return None
+            if isinstance(st, pyast.AugAssign):
+                if isinstance(st.value, pyast.Constant) and isinstance(st.value.value, int) and isinstance(st.op, (pyast.Add, pyast.Sub)):
+                    effect = st.value.value if isinstance(st.op, pyast.Add) else -st.value.value
+                else:
+                    return None
+            elif init and isinstance(val, pyast.Constant) and isinstance(val.value, int) and not isinstance(val.value, bool):
+                effect = val.value
+            elif not init and isinstance(val, pyast.BinOp) and pyast.unparse(val.left) == "self.locks" \
+                    and isinstance(val.right, pyast.Constant) and isinstance(val.right.value, int) and isinstance(val.op, (pyast.Add, pyast.Sub)):
+                effect = val.right.value if isinstance(val.op, pyast.Add) else -val.right.value
+            else:
+                return None
+        return effect
+
+    for cls in pyast.walk(tree):
+        if isinstance(cls, pyast.ClassDef) and cls.name == "_WrapperCache":
+            for f in cls.body:
+                if isinstance(f, pyast.FunctionDef) and f.name in ("__init__", "__enter__", "__exit__"):
+                    out[{"__init__": "lock_init", "__enter__": "lock_enter", "__exit__": "lock_exit"}[f.name]] = lock_effect(f, f.name == "__init__")
     first = fn.body[1] if isinstance(fn.body[0], pyast.Expr) else fn.body[0]
     if isinstance(first, pyast.If) and isinstance(first.test, pyast.BoolOp) and isinstance(first.test.op, pyast.Or):
         out["guard"] = " or ".join(sorted(pyast.unparse(v) for v in first.test.values))
